@@ -23,7 +23,13 @@ returned normally; nothing hangs once the peer keeps reading.
            The transport send lock is the stock asyncio.Lock or the repo's FairLock; the peer application may stop reading
            for 3..40 ticks after the handshake (the lock owner stays suspended mid-flush); senders QUEUED on the transport
            send lock are cancelled: every later sender must still succeed and the peer must still decrypt everything (the
-           packet of the cancelled call itself may or may not arrive - its records are already in the write BIO)
+           packet of the cancelled call itself may or may not arrive - its records are already in the write BIO).
+           Over the plain adapter (whose send_all() buffers the whole cipher-text before waiting, so a cancellation cannot
+           tear a record) the OWNER of the send lock is cancelled too while it is suspended mid-flush (task.cancel() from the
+           cancellers, or a 1/4/15-tick backend.move_on_after() scope around the call, which fires wherever the call is),
+           with other calls already returned or queued; the peer's window may shrink to 64..1024 bytes after the handshake;
+           the transport may be closed with standard_compatible=False (aclose() flushes nothing, the peer sees EOF without
+           close_notify): every call that REPORTED SUCCESS must have its packet decrypted by the peer by the end of the run
 
   client-first-use / udp-first-use   N senders on a FRESH AsyncTCPNetworkClient / AsyncUDPNetworkClient built from (host, port):
            the first call performs the connection lazily under the send lock (asyncio.Lock or FairLock), the others queue up.
@@ -80,7 +86,10 @@ RULE = (
     "on the send lock at any queue position, from a timer-woken task or from an iteration hook biased to the iteration in which the "
     "owner releases (cancellation processed between release and the head waiter's resumption); oracle = independent decoder: wire == "
     "multiset of packets of the calls that returned, per-sender order, every non-cancelled call returned normally, no hang; tls: the "
-    "peer decrypts everything, a call cancelled while queued may still have its packet delivered whole at most once; "
+    "peer decrypts everything, a call cancelled while queued may still have its packet delivered whole at most once; tls over the plain "
+    "adapter: the send-lock OWNER is cancelled / timed out (move_on_after 1, 4, 15 ticks) mid-flush as well, peer window shrunk to "
+    "64..1024 bytes after the handshake, close with standard_compatible=False (no flush at close): every call that reported success has "
+    "its packet at the peer; "
     "client-first-use / udp-first-use: 2-5 senders on a not yet connected async TCP/UDP client (lazy connection by the first call under "
     "the send lock), connection delay 0..12 ticks, outcome ok / refused / never (UDP: unreachable / unknown name), 0-2 cancels of the "
     "connecting or of a queued sender at a drawn half-tick or loop iteration; after a failed or cancelled attempt a call may only end "
@@ -232,6 +241,10 @@ class _BurstReader:
 
 
 # ===================================================================================================== workload
+class _CallTimedOut(Exception):
+    """raised by a harness' send_packet wrapper when the timeout scope it had put around the call fired"""
+
+
 class _Workload:
     def __init__(self, world: World, name: str, *, max_extra_senders: int = 4, max_packets: int = 4, timed: bool = False, cancels: bool = False):
         self.world = world
@@ -279,6 +292,10 @@ class _Workload:
         # TLS: the cipher-text of a sender that is queued on the transport send lock is already in the write BIO and is flushed
         # by the lock owner, so the packet of a call cancelled there may legitimately reach the peer (whole, at most once)
         self.cancelled_may_be_sent = False
+        # TLS over the asyncio adapter: the OWNER of the transport send lock (locks[0]) may be cancelled too while it is suspended
+        # mid-flush (the adapter's send_all() buffers the whole cipher-text before it waits, so the record stream stays whole)
+        self.owner_cancellable = False
+        self.owner_cancelled = False
         self.locks: list[Any] = []  # tracking locks whose waiters may be cancelled
         self.in_call: set[Any] = set()  # sender tasks currently inside send_packet()
         self.failure_allowed: Callable[[BaseException], bool] | None = None  # first-use harnesses, see sender()
@@ -341,6 +358,9 @@ class _Workload:
                 me.uncancel()  # type: ignore[union-attr]
                 self.calls.append((packet[0], packet[1], "cancelled@lock"))
                 self.world.log("send_cancelled", self.name, packet[0], packet[1])
+            except _CallTimedOut:  # tls harness: the call was made under a timeout scope, which fired
+                self.calls.append((packet[0], packet[1], "cancelled@timeout"))
+                self.world.log("send_timed_out", self.name, packet[0], packet[1])
             except Exception as exc:  # the property: every call succeeds
                 # first-use harnesses: once the (lazy) connection attempt has failed or was cancelled, a call may report that
                 # (ClientClosedError / OSError); nothing else
@@ -452,6 +472,11 @@ class _Workload:
             for pos, t in enumerate(lk.waiting):
                 if t in tasks and t not in self.cancel_targets and not t.done():
                     out.append((t, lk, pos))
+        if self.owner_cancellable and self.locks:
+            lk = self.locks[0]
+            t = lk.owner
+            if lk.locked() and t in tasks and t in self.in_call and t not in self.cancel_targets and not t.done():
+                out.append((t, lk, -1))  # last: candidate 0 stays the head waiter
         return out
 
     def _cancel(self, victim: Any, lk: Any, pos: int, fault: str) -> None:
@@ -461,6 +486,11 @@ class _Workload:
         victim.cancel()
         self.cancels_left -= 1
         w.fault(fault)
+        if pos < 0:
+            self.owner_cancelled = True
+            w.probe("cancelled-the-lock-owner-mid-flush:%d-queued,%d-calls-already-returned" % (min(queued, 2), min(len(self.calls), 2)))
+            w.log("cancel", self.name, victim.get_name(), pos)
+            return
         w.probe("cancelled-a-queued-sender:%d-queued" % min(queued, 3))
         if pos > 0:
             w.probe("cancelled-a-non-head-waiter:%s-behind-it" % ("somebody" if pos < queued - 1 else "nobody"))
@@ -520,7 +550,7 @@ def _check_calls(wl: _Workload) -> tuple[list[tuple[int, int, int]], str]:
     # a call made with a timeout may end in TimeoutError (timeout@lock / timeout@send), a call cancelled by the harness while it
     # was queued on the lock in CancelledError (cancelled@lock); nothing else may fail
     # (first-use harnesses: allowed@<Type> = ClientClosedError / OSError after the connection attempt failed or was cancelled)
-    bad = [c for c in wl.calls if c[2] != "ok" and not c[2].startswith(("timeout@", "allowed@")) and c[2] != "cancelled@lock"]
+    bad = [c for c in wl.calls if c[2] != "ok" and not c[2].startswith(("timeout@", "allowed@", "cancelled@"))]
     if bad:
         raise Violation("every-call-succeeds", f"send_packet raised for (sender, seq, exception) {bad}; {ctx}", key=f"C12/{wl.name}/call-raised/{bad[0][2]}")
     if len(wl.calls) != len(planned):
@@ -531,10 +561,11 @@ def _check_calls(wl: _Workload) -> tuple[list[tuple[int, int, int]], str]:
 
 
 def _optional_packets(wl: _Workload) -> list[tuple[int, int, int]]:
-    """packets which may be on the wire (whole, at most once) or not: TLS calls cancelled while queued on the transport send lock"""
+    """packets which may be on the wire (whole, at most once) or not: TLS calls cancelled / timed out while queued on the
+    transport send lock or while owning it"""
     if not wl.cancelled_may_be_sent:
         return []
-    gone = {(c[0], c[1]) for c in wl.calls if c[2] == "cancelled@lock"}
+    gone = {(c[0], c[1]) for c in wl.calls if c[2].startswith("cancelled@")}
     return [p for lst in wl.plan for _, p in lst if (p[0], p[1]) in gone]
 
 
@@ -612,6 +643,7 @@ class _Tracking:
     def _track_init(self) -> None:
         self.waiting: list[Any] = []
         self.owner: Any = None
+        self.taken: Counter[Any] = Counter()  # task -> how many times it got the lock
 
     async def acquire(self) -> Any:
         task = asyncio.current_task()
@@ -626,6 +658,7 @@ class _Tracking:
         finally:
             self.waiting.remove(task)
         self.owner = task
+        self.taken[task] += 1
         return r
 
 
@@ -950,7 +983,19 @@ def _h_tls(world: World) -> None:
     # back-pressure: the peer application stops reading for a while right after the handshake, so that the sender that owns the
     # transport send lock stays suspended mid-flush while the others queue up behind it (and may be cancelled there)
     pause = 0 if wl.baseline else (0, 0, 3, 12, 40)[world.choose("tls.peer_pause", 5)]
-    world.notes.update(tls=version, lib_server=lib_server, shape=shape, tls_capacity=capacity, piecewise=piecewise, fairlock=fair, peer_pause=pause)
+    # ... and the peer's receive window may shrink once the handshake (which needs room) is over, so that even one small
+    # record keeps the owner of the send lock suspended until the peer reads
+    window = 0 if wl.baseline else (0, 0, 64, 256, 1024)[world.choose("tls.window", 5)]
+    # standard_compatible=False: aclose() skips the closing handshake, so it flushes nothing: whatever a call that reported
+    # success left in the write BIO is never sent (the peer then sees EOF without close_notify, which is expected)
+    std_compat = True if wl.baseline else not world.choose("tls.no_shutdown", 2)
+    # the lock owner may be cancelled mid-flush only over the plain adapter: a cancelled piecewise send_all() legitimately leaves
+    # a torn record behind (documented: the connection is then in an inconsistent state)
+    wl.owner_cancellable = not wl.baseline and not piecewise
+    # ... and there some calls are made under a timeout scope (backend.move_on_after) of 1, 4 or 15 ticks, which fires wherever
+    # the call is: queued on the send lock, or owning it mid-flush while the others have already returned
+    call_tmo = [[(0, 0, 0, 1, 4, 15)[world.choose("tls.call_timeout", 6)] if wl.owner_cancellable else 0 for _ in lst] for lst in wl.plan]
+    world.notes.update(tls=version, lib_server=lib_server, shape=shape, tls_capacity=capacity, piecewise=piecewise, fairlock=fair, peer_pause=pause, window=window, standard_compatible=std_compat, call_timeouts=call_tmo)
     net = SimNet(world)
     backend = _FairLockBackend(net, wl, fair=fair)
     d = wl.delivery
@@ -973,14 +1018,31 @@ def _h_tls(world: World) -> None:
         tr: Any = await backend.wrap_stream_socket(lib)
         if piecewise:
             tr = _PiecewiseTransport(tr, piecewise)
-        tls = await AsyncTLSStreamTransport.wrap(tr, make_context(lib_server, version), server_side=lib_server, server_hostname=None if lib_server else "sim.host", handshake_timeout=200000.0)
+        tls = await AsyncTLSStreamTransport.wrap(tr, make_context(lib_server, version), server_side=lib_server, server_hostname=None if lib_server else "sim.host", handshake_timeout=200000.0, standard_compatible=std_compat)
 
-        async def send_packet(packet: Any) -> None:
+        async def send_now(packet: Any) -> None:
             if use_iter[packet[0] - 1][packet[1]]:
                 await tls.send_all_from_iterable(serializer.incremental_serialize(packet))
             else:
                 await tls.send_all(serializer.serialize(packet))
 
+        async def send_packet(packet: Any) -> None:
+            tmo = call_tmo[packet[0] - 1][packet[1]]
+            if not tmo:
+                return await send_now(packet)
+            lk, me = wl.locks[0], asyncio.current_task()
+            before = lk.taken[me]
+            with backend.move_on_after(tmo * TICK) as scope:
+                return await send_now(packet)
+            if scope.cancelled_caught():
+                world.fault("cancel_at_time")
+                world.probe("call-timed-out:%s" % ("owning-the-send-lock" if lk.taken[me] != before else "queued-on-the-send-lock"))
+                raise _CallTimedOut()
+
+        if window:
+            assert lib.tx_pipe is not None
+            lib.tx_pipe.capacity = window
+            world.fault("capacity_small")
         if pause:
             peer.paused = True
             world.fault("peer_stops_reading")
@@ -990,8 +1052,13 @@ def _h_tls(world: World) -> None:
             guard = 0
             pipe = lib.tx_pipe
             assert pipe is not None
-            while peer.engine.error is None and (pipe.flight or pipe.rx):
-                await asyncio.sleep(TICK)  # let the reference peer take what is still on the link before closing
+            quiet, last = 0, -1
+            while peer.engine.error is None and (pipe.flight or pipe.rx or quiet < 4):
+                # let the reference peer take what is still on the link before closing, and the socket transport hand over what
+                # a cancelled lock owner left in its write buffer (nothing written for 4 ticks with an empty link = nothing left)
+                quiet = quiet + 1 if pipe.total_written == last and not (pipe.flight or pipe.rx) else 0
+                last = pipe.total_written
+                await asyncio.sleep(TICK)
                 guard += 1
                 if guard > 50000:
                     raise StepCap("C12 tls: the link did not drain within 50000 ticks")
@@ -1010,7 +1077,11 @@ def _h_tls(world: World) -> None:
         ) from None
     if not state.get("closed"):
         raise HarnessError("C12 tls: run ended before the transport was closed")
-    if peer.engine.error is not None:
+    # the loop is gone; let the link deliver what is still in flight (e.g. what a cancelled owner left in the socket buffer)
+    _drain_world(world, lambda: peer.fin_seen or peer.rst_seen or peer.engine.error is not None)
+    if not std_compat and peer.engine.saw_ragged_eof and peer.fin_seen:
+        world.probe("tls-closed-without-shutdown")  # EOF without close_notify is what standard_compatible=False produces
+    elif peer.engine.error is not None:
         sent, ctx = _check_calls(wl)
         raise Violation("wire-decodes", f"the reference TLS peer could not decrypt the cipher-text stream: {type(peer.engine.error).__name__} after {len(peer.plain_in)} plaintext bytes; {ctx}", key=f"C12/tls/wire/tls-{type(peer.engine.error).__name__}")
 
@@ -1162,7 +1233,7 @@ HARNESSES = [
     Harness("client-first-use", _h_first_use, weight=1),
     Harness("udp-first-use", lambda w: _h_first_use(w, True), weight=1),
     Harness("server-fairlock", lambda w: _h_server(w, True), weight=1),
-    Harness("tls", _h_tls, weight=1),
+    Harness("tls", _h_tls, weight=2),
     Harness("threads-tcp", _h_threads_tcp, weight=2),
     Harness("threads-udp", _h_threads_udp, weight=1),
 ]
